@@ -505,10 +505,74 @@ fn c10_case(tier: Tier, mut idx: u64) -> (ProjectM, String) {
 
 // ---------------------------------------------------------------------------
 
+// ---------------------------------------------------------------------------
+// C05: references at nesting depth 5 .. 64 (resolution must reach any depth)
+
+const C05_DEPTHS: [usize; 8] = [5, 9, 16, 31, 32, 33, 48, 64];
+
+fn c05_count() -> u64 {
+    (C05_DEPTHS.len() * 4) as u64
+}
+
+fn c05_case(idx: u64) -> (ProjectM, String) {
+    let depth = C05_DEPTHS[(idx / 4) as usize];
+    let wrap = idx % 4;
+    let deep = |leaf: TyM| {
+        let mut t = leaf;
+        for level in 0..depth {
+            t = match (wrap, level % 3) {
+                (0, _) => TyM::List(Some(Box::new(t))),
+                (1, _) => TyM::Map(Some(Box::new((TyM::Str, t)))),
+                (2, 0) => TyM::List(Some(Box::new(t))),
+                (2, 1) => TyM::Array(Box::new(t)),
+                (2, _) => TyM::Map(Some(Box::new((TyM::Str, t)))),
+                (_, 0) => TyM::Map(Some(Box::new((t, TyM::Str)))),
+                (_, _) => TyM::List(Some(Box::new(t))),
+            };
+        }
+        t
+    };
+    let members = vec![
+        PMemberM::Field(FieldM {
+            annos: vec![],
+            ty: deep(TyM::Custom(name("Pa"))),
+            name: "a".into(),
+            value: None,
+        }),
+        PMemberM::Field(FieldM {
+            annos: vec![],
+            ty: deep(TyM::Custom(name("Nope"))),
+            name: "b".into(),
+            value: None,
+        }),
+        PMemberM::Field(FieldM {
+            annos: vec![],
+            ty: deep(TyM::Custom(name("Fw"))),
+            name: "c".into(),
+            value: None,
+        }),
+        PMemberM::Field(FieldM {
+            annos: vec![],
+            ty: deep(TyM::Custom(name("IBinder"))),
+            name: "d".into(),
+            value: None,
+        }),
+    ];
+    (
+        project_with(ItemM::Parcelable(ParcelableM {
+            annos: vec![],
+            name: "T".into(),
+            members,
+        })),
+        format!("references at nesting depth {depth}, wrapper pattern {wrap}"),
+    )
+}
+
 pub fn count(which: Which, tier: Tier) -> u64 {
     match which {
+        Which::C05 | Which::C06 => c05_count(),
         Which::C07 => c07_count(),
-        Which::C08 => c08_count(tier),
+        Which::C08 => c08_count(tier) + c05_count(),
         Which::C09 => c09_count(tier),
         Which::C10 => c10_count(tier),
         _ => 0,
@@ -517,7 +581,9 @@ pub fn count(which: Which, tier: Tier) -> u64 {
 
 pub fn run(p: &ValProp, tier: Tier, idx: u64, st: &mut Stats) -> Result<(), Fail> {
     let (proj, label) = match p.which {
+        Which::C05 | Which::C06 => c05_case(idx),
         Which::C07 => c07_case(idx),
+        Which::C08 if idx >= c08_count(tier) => c05_case(idx - c08_count(tier)),
         Which::C08 => c08_case(tier, idx),
         Which::C09 => c09_case(tier, idx),
         Which::C10 => c10_case(tier, idx),
